@@ -23,6 +23,10 @@
 (* Plans: for each of the 21 diplotypes the table with one standard row    *)
 (*     per catalogued variant, in ascending and descending order.          *)
 (* Every row runs through Fetch / filter / orient / count x2 / EndRow.     *)
+(* MC_PscanInput.cfg: 305,693 distinct states (about 20 s on 8 workers);    *)
+(* MC_PscanInput_quick.cfg (U2 tables and plans only): 6,938 states;        *)
+(* MC_PscanInput_hazard.cfg (reference count not cumulative) is EXPECTED to *)
+(* violate ReferenceReduced.                                                *)
 (***************************************************************************)
 EXTENDS PscanInput
 
@@ -109,6 +113,23 @@ MCSpec == MCInit /\ [][MCNext]_vars
 (* the quick configuration: single rows over U2, all two-row tables, all plans *)
 MCNextQuick == FetchPair \/ FetchPlan \/ RowSteps \/ Close
 MCSpecQuick == MCInit /\ [][MCNextQuick]_vars
+
+(* ---- hazard: the reference support of a site set from the row at hand only ----------------- *)
+(* (what `norm[pos] = norm[pos][:20 - m]` does): CountAlt with a NON-cumulative reference count.  *)
+(* MC_PscanInput_hazard.cfg must report a violation (two rows sharing a site).                    *)
+HazardCountAlt ==
+    /\ pc = "count" /\ cur.j < 2 /\ Called # cur.ref /\ \E i \in DOMAIN cur.alts : cur.alts[i] = Called
+    /\ LET e == Spell(gene, Trim(cur.start, Txt(cur.ref), Txt(Called), 0))
+           m == Cardinality({x \in 1..(cur.j + 1) : Row.gt[x] = Called})
+       IN  IF Effective(e)
+           THEN norm' = Put(norm, e.site, FULL - UNIT * m) /\ muts' = Put(muts, Key(e), Get(muts, Key(e), 0) + UNIT)
+           ELSE UNCHANGED <<norm, muts>>
+    /\ Advance /\ UNCHANGED <<gene, table>>
+HazardRowSteps ==
+    \/ SkipOtherChrom \/ SkipOutside \/ SkipNonDiploid \/ Accept
+    \/ KeepOrientation \/ Swap \/ SkipUnspecified
+    \/ CountRef \/ CountUnnamed \/ HazardCountAlt \/ EndRow
+MCSpecHazard == MCInit /\ [][FetchPair \/ HazardRowSteps \/ Close]_vars
 
 (* every plan carries its diplotype (so DiplotypeRecovered is not vacuous) *)
 PlansCarry == (Done /\ table \in Plans) =>
